@@ -27,6 +27,7 @@ def run(tier: str) -> int:
             {"Family": "mods", "MaxLen": 4, "Starts": "zero", "Sample": 400, "workers": 4},
             {"Family": "names", "MaxLen": 3, "Starts": "zero", "Sample": 200, "workers": 2},
             {"Family": "trivfx", "MaxLen": 4, "Starts": "zero", "Sample": 350, "workers": 3, "modes": ("interp", "gen", "opt", "optgen")},
+            {"Family": "bounds", "MaxLen": 4, "Starts": "zero", "Sample": 450, "workers": 3, "modes": ("interp", "gen", "opt", "optgen")},
         ]
     else:
         fams = [
@@ -35,6 +36,7 @@ def run(tier: str) -> int:
             {"Family": "mods", "MaxLen": 5, "Starts": "zero", "Sample": 0, "workers": 12},
             {"Family": "names", "MaxLen": 4, "Starts": "zero", "Sample": 0, "workers": 8},
             {"Family": "trivfx", "MaxLen": 4, "Starts": "zero", "Sample": 0, "workers": 8, "modes": ("interp", "gen", "opt", "optgen")},
+            {"Family": "bounds", "MaxLen": 4, "Starts": "zero", "Sample": 0, "workers": 8, "modes": ("interp", "gen", "opt", "optgen")},
         ]
     # trivia around the (!x ~ ANY)* idiom in rules of every modifier, also through the optimizer (which rewrites the idiom)
     fams.append({"Family": "optsk", "MaxLen": 4, "Starts": "zero", "Sample": 250 if not thorough else 0, "workers": 3 if not thorough else 8, "style": "min", "modes": ("interp", "gen", "opt", "optgen")})
